@@ -199,7 +199,7 @@ def assigned(stmts):
                     if isinstance(el, ast.Name):
                         add(el.id)
             elif isinstance(n, ast.Call) and isinstance(n.func, ast.Attribute) and n.func.attr in (
-                    "pop", "append", "extend", "write", "seek", "read", "discard_start", "discard_end", "add_row", "add"):
+                    "pop", "append", "extend", "write", "seek", "read", "discard_start", "discard_end", "add_row", "add", "insert"):
                 r = root_of(n.func.value)
                 if r:
                     add(r)
@@ -239,6 +239,8 @@ class Kernel:
             return "[]"
         if frm == "nat" and to == "int":
             return f"(Int.ofNat {term})"
+        if to == L("row") and frm in (L("gap"), L("frag")):
+            return f"(({term}).map Row.{'gap' if frm == L('gap') else 'frag'})"
         raise Unsupported(f"cannot use a value of type {frm} where {to} is expected")
 
     def truthy(self, term, ty):
@@ -480,12 +482,23 @@ class Kernel:
                     binds.append((nm, (f"(if {acc} = true then {rhs} else .ok false)" if is_and else f"(if {acc} = true then .ok true else {rhs})"), "bool"))
                     acc = nm
             return acc, "bool"
+        if isinstance(e, ast.IfExp) and isinstance(e.body, ast.List) and len(e.body.elts) == 1 and isinstance(e.orelse, ast.List) and not e.orelse.elts \
+                and ast.dump(e.body.elts[0]) == ast.dump(e.test):
+            # `[x] if x else []` for an optional object: the list of what is there
+            t, ty = self.expr(e.test, env, binds)
+            if isinstance(ty, tuple) and ty[0] == "opt" and ty[1] in ("gap", "frag", "row", "scaffold"):
+                return f"(({t}).toList)", L(ty[1])
+            raise Unsupported("`[x] if x else []` on a non-optional")
         if isinstance(e, ast.IfExp):
             c, tc = self.expr(e.test, env, binds)
             c = self.truthy(c, tc)
             sa, sb = [], []
             a, ta = self.expr(e.body, env, sa)
             b, tb = self.expr(e.orelse, env, sb)
+            if tb == "emptylist" and isinstance(ta, tuple) and ta[0] == "list":
+                b, tb = "[]", ta
+            if ta == "emptylist" and isinstance(tb, tuple) and tb[0] == "list":
+                a, ta = "[]", tb
             if ta != tb:
                 raise Unsupported("conditional expression with different types")
             if not sa and not sb:
@@ -590,6 +603,14 @@ class Kernel:
                 (a, ta), (b, tb) = self.expr(e.args[0], env, binds), self.expr(e.args[1], env, binds)
                 if ta == tb == "int":
                     return f"({n} {a} {b})", "int"
+            if n == "getattr" and len(e.args) == 3 and isinstance(e.args[1], ast.Constant) and isinstance(e.args[2], ast.Constant) and e.args[2].value is None \
+                    and dotted(e.args[0]):
+                path = dotted(e.args[0]) + "." + e.args[1].value
+                if path not in self.spec.get("attr_params", {}):
+                    raise Unsupported("getattr of an undeclared attribute")
+                ty = self.spec["attr_params"][path]
+                self.param(path.replace(".", "_"), ty)
+                return path.replace(".", "_"), ty
             if n == "abs" and len(e.args) == 1:
                 t, ty = self.expr(e.args[0], env, binds)
                 if ty == "int":
@@ -925,6 +946,10 @@ class Kernel:
         if isinstance(tg, ast.Tuple) and len(tg.elts) == 2 and all(isinstance(n, ast.Name) for n in tg.elts) and not isinstance(s.value, ast.Tuple):
             # a, b = xs  (a list of exactly two elements)
             t, ty = self.expr(s.value, env, binds)
+            if isinstance(ty, tuple) and ty[0] == "tuple" and len(ty[1]) == 2:
+                l1, env2 = self.bind_var(tg.elts[0].id, f"({t}).1", ty[1][0], env)
+                l2, env2 = self.bind_var(tg.elts[1].id, f"({t}).2", ty[1][1], env2)
+                return self.with_binds(binds, [l1, l2] + self.block(rest, env2, loop))
             if not (isinstance(ty, tuple) and ty[0] == "list"):
                 raise Unsupported("unpacking of a non-list")
             nm = self.fresh("un")
@@ -1087,6 +1112,13 @@ class Kernel:
             m = f.attr
             if m == "pop":
                 return self.pop_stmt(None, c, rest, env, loop)
+            if m == "insert" and len(c.args) == 2 and isinstance(c.args[0], ast.Constant) and c.args[0].value == 0:
+                cont, tc = self.expr(f.value, env, binds)
+                if not (isinstance(tc, tuple) and tc[0] == "list"):
+                    raise Unsupported("insert on a non-list")
+                v, tv = self.expr(c.args[1], env, binds)
+                lines, env2 = self.store_back(f.value, f"([{self.coerce_elem(v, tv, tc[1])}] ++ {cont})", tc, env)
+                return self.with_binds(binds, lines + self.block(rest, env2, loop))
             if m == "add" and len(c.args) == 1:
                 cont, tc = self.expr(f.value, env, binds)
                 if not (isinstance(tc, tuple) and tc[0] == "set"):
@@ -1162,7 +1194,8 @@ class Kernel:
             b = self.block(list(some_body) + ([] if (some_body and always_exits(some_body)) else rest), env_some, loop)
             return [f"match {mg(x)} with", "| none =>"] + ind(a) + [f"| some {mg(x)} =>"] + ind(b)
         def opt_obj(n):
-            return isinstance(n, ast.Name) and isinstance(env.get(n.id), tuple) and env[n.id][0] == "opt" and env[n.id][1] in ("frag", "gap", "row", "scaffold", "ovres", "fastainfo")
+            return isinstance(n, ast.Name) and isinstance(env.get(n.id), tuple) and env[n.id][0] == "opt" \
+                and (env[n.id][1] in ("frag", "gap", "row", "scaffold", "ovres", "fastainfo") or (isinstance(env[n.id][1], tuple) and env[n.id][1][0] == "tuple" and env[n.id][1][1]))
         if isinstance(test, ast.UnaryOp) and isinstance(test.op, ast.Not) and opt_obj(test.operand):
             isnone = ast.Compare(left=ast.Name(id=test.operand.id, ctx=ast.Load()), ops=[ast.Is()], comparators=[ast.Constant(value=None)])
             return self.if_stmt(ast.If(test=isnone, body=s.body, orelse=s.orelse), rest, env, loop)
@@ -1480,6 +1513,14 @@ IMP_KERNELS_4 = [
          dict_roots={"self.assembly_stats.cuts": "int"}, opaque={"self.qc_sub_fragments": (["skip", L("frag")], "unit", True)}),
 ]
 
+IMP_KERNELS_5 = [
+    dict(file="assembly/build_assembly.py", qual="BuildAssembly.input_predecessor", lean="BuildAssembly_input_predecessor",
+         params={"scffld": "scaffold", "i": "int"}, locals={"gaps": L("row")}, returns=O(("tuple", ["row", L("row")]))),
+    dict(file="assembly/build_assembly.py", qual="BuildAssembly.gaps_before_leftover", lean="BuildAssembly_gaps_before_leftover",
+         params={"build_scffld": "scaffold"}, returns=L("row"),
+         attr_params={"scffld.input_predecessor": O(("tuple", ["frag", L("row")])), "self.default_gap": O("gap")}),
+]
+
 IMP_KERNELS = [
     dict(file="assembly/indexed_assembly.py", qual="IndexedAssembly.find_overlaps", lean="IndexedAssembly_find_overlaps",
          params={"bait": "frag"}, returns=O("ovres"), locals={"ovr": O("int")},
@@ -1511,7 +1552,7 @@ IMP_KERNELS = [
 def main():
     parts = ["/- GENERATED by harness/translate_imp.py from /repo/src — do not edit -/", "import AgpTpf.Model.PyRt", "import AgpTpf.Model.PyRtHeap", "import AgpTpf.Model.Lookup",
              "import AgpTpf.Model.Fasta", "set_option linter.unusedVariables false", "namespace AgpTpf.Gen.Imp", "open AgpTpf", ""]
-    for spec in IMP_KERNELS + IMP_KERNELS_2 + IMP_KERNELS_3 + IMP_KERNELS_4:
+    for spec in IMP_KERNELS + IMP_KERNELS_2 + IMP_KERNELS_3 + IMP_KERNELS_4 + IMP_KERNELS_5:
         parts.append(translate(spec))
     parts.append("end AgpTpf.Gen.Imp\n")
     txt = "\n".join(parts)
